@@ -43,6 +43,16 @@ def _defs(body):
                 whole.setdefault(t.dest.local, []).append(t)
             elif t.dest.proj[0] != '*':
                 partial.setdefault(t.dest.local, []).append(t)
+    # locals that are mutably borrowed as a whole (`&mut x`): their value changes behind the definition
+    mutb = set()
+    for b in body.blocks:
+        if b.cleanup or b.idx not in body.reachable:
+            continue
+        for s in b.stmts:
+            if s.kind == 'assign' and s.rv.kind in ('ref', 'rawptr') and s.rv.raw.get('mut', s.rv.kind == 'rawptr') \
+                    and s.rv.place is not None and (not s.rv.place.proj or s.rv.place.proj[0] != '*'):
+                mutb.add(s.rv.place.local)
+    body._mutborrowed = mutb
     body._defs = (whole, partial)
     return body._defs
 
@@ -86,6 +96,9 @@ class Symbolizer:
             return ('arg', l, name)
         whole, partial = defs_of(body, l)
         name = body.var_name(l)
+        if name and l in body._mutborrowed:
+            # mutable state (Vec being pushed to, rng, ...): a name, not a value
+            return ('var', name, l)
         if len(whole) == 1 and not partial:
             key = l
             if key in self.cache:
@@ -718,3 +731,34 @@ def memory_reads(body, x, _seen=None):
                     else:
                         out.extend(memory_reads(body, o, _seen))
     return out
+
+
+def init_value(body, t, _depth=0):
+    """replace ('var', name, local) nodes of mutable locals by the tree of their (single) initial definition:
+    the value the variable was created with (e.g. the iterator a `for` loop pulls from)"""
+    if not isinstance(t, tuple) or not t or _depth > 8:
+        return t
+    if t[0] == 'var' and len(t) >= 3:
+        whole, partial = defs_of(body, t[2])
+        if len(whole) == 1 and not partial:
+            z = symbolizer(body)
+            d = whole[0]
+            r = simplify(z.rvalue(d.rv, 0, (t[2],)) if hasattr(d, 'rv') else z.call(d, 0, (t[2],)))
+            return init_value(body, r, _depth + 1)
+        return t
+    if t[0] == 'call':
+        return ('call', t[1], tuple(init_value(body, a, _depth) for a in t[2])) + t[3:]
+    if t[0] in ('field', 'variant', 'unwrap', 'discr', 'cast'):
+        return (t[0], init_value(body, t[1], _depth)) + t[2:]
+    if t[0] == 'index':
+        return ('index', init_value(body, t[1], _depth), init_value(body, t[2], _depth))
+    if t[0] == 'bin':
+        return ('bin', t[1], init_value(body, t[2], _depth), init_value(body, t[3], _depth))
+    if t[0] == 'agg':
+        return ('agg', t[1], t[2], tuple(init_value(body, a, _depth) for a in t[3]))
+    return t
+
+
+def loop_source(body, next_call):
+    """tree of the iterator a `next()` call pulls from, with loop iterator variables expanded to their source"""
+    return init_value(body, sym(body, next_call.args[0]))
